@@ -29,7 +29,7 @@ def main():
         patch = src / 'patch.diff'
         files = [ln[6:] for ln in patch.read_text().splitlines() if ln.startswith('+++ b/')]
         ok['only_src'] = all(f.startswith('src/emsarray/') for f in files)
-        env = dict(os.environ, PYTHONPATH=f'{wt}/src', DASK_SCHEDULER='synchronous')
+        env = dict(os.environ, PYTHONPATH=f'{wt}/src', EMSARRAY_SRC=f'{wt}/src', DASK_SCHEDULER='synchronous')
         d0 = sh(['/venv/bin/python', str(src / 'demo.py')], env=env, cwd='/tmp', timeout=900)
         ok['demo_without'] = d0.returncode
         a = sh(['git', '-C', wt, 'apply', str(patch)])
@@ -50,7 +50,10 @@ def main():
     dest = VERIF / 'seeded' / name
     dest.mkdir(parents=True, exist_ok=True)
     shutil.copy(src / 'patch.diff', dest / 'patch.diff')
-    shutil.copy(src / 'demo.py', dest / 'demo.py')
+    import re
+    demo = (src / 'demo.py').read_text()
+    demo = re.sub(r'/tmp/w[t2]_C\d+/src', '/repo/src', demo)   # the author's scratch worktree is gone: default to the repository
+    (dest / 'demo.py').write_text(demo)
     notes = (src / 'notes.md').read_text() if (src / 'notes.md').exists() else ''
     (dest / 'notes.md').write_text(notes)
     meta = {'property': prop, 'origin': 'independent sub-agent given only the property text and a scratch worktree',
